@@ -4,6 +4,7 @@ use super::PropResult;
 use crate::core::*;
 use crate::model::calendar as cal;
 use crate::model::instant::*;
+use super::diff::*;
 use crate::model::rfc3339::*;
 use astrolabe::errors::AstrolabeError;
 use astrolabe::{DateTime, Precision};
@@ -29,7 +30,11 @@ fn judge_write(rec: &mut Rec, i: i128, off: i32, k: usize) {
     rec.bin(match k { 0 => "write/Seconds", 1 => "write/Centis", 2 => "write/Millis", 3 => "write/Micros", _ => "write/Nanos" });
     rec.bin(if off == 0 { "write/offset-zero" } else if off < 0 { "write/offset-negative" } else { "write/offset-positive" });
     rec.nontrivial(hash_i128s(&[i, off as i128, k as i128]));
-    let r = trap(|| mk_off(i, off).format_rfc3339(precision(k)));
+    let Some((val, _)) = sane_value(i, off) else {
+        rec.bin(SKIP_START);
+        return;
+    };
+    let r = trap(|| val.format_rfc3339(precision(k)));
     let wit = |obs: Value| json!({"value_utc": show(i), "offset": off, "precision": pname, "observed": obs});
     match r {
         Err(p) => rec.violation(format!("C13|write|format_rfc3339|panic|{},{}", p.class, p.site()), || wit(p.to_json())),
@@ -87,20 +92,27 @@ fn judge_read(rec: &mut Rec, st: &Stamp, via_from_str: bool) {
     let want_off = st.offset_secs();
     let r = trap(|| {
         let x = if via_from_str { DateTime::from_str(&text) } else { DateTime::parse_rfc3339(&text) };
-        x.map(|dt| (read(&dt), offset_secs(&dt)))
+        x
     });
     let wit = |obs: Value| json!({"text": text, "api": api, "model": {"instant": show(want_i), "offset": want_off, "nanos": st.nanos()}, "observed": obs});
     match r {
         Err(p) => rec.violation(format!("C13|read|{}|panic|{},{}|{}", api, p.class, p.site(), frac_bin(st.frac.len())), || wit(p.to_json())),
         Ok(Err(e)) => rec.violation(format!("C13|read|{}|rejected-grammatical|{}", api, frac_bin(st.frac.len())), || wit(json!({"error": e.to_string()}))),
-        Ok(Ok((i, o))) => {
-            if i != want_i {
-                let only_frac = i.div_euclid(NS) == want_i.div_euclid(NS);
-                rec.violation(format!("C13|read|{}|wrong-instant|{},{}", api, if only_frac { "fraction" } else { "fields" }, frac_bin(st.frac.len())), || wit(json!({"instant": show(i), "offset": o})));
-            } else if o != Some(want_off) {
-                rec.violation(format!("C13|read|{}|wrong-offset", api), || wit(json!({"offset": o})));
+        Ok(Ok(dt)) => match diff_with_expected(&dt, want_i, want_off) {
+            Ok(Diff::Skip) => rec.bin(SKIP_EXPECTED),
+            Ok(Diff::Same) => {}
+            Ok(Diff::Differs(g, e)) => {
+                if g.ns_since != e.ns_since {
+                    let only_frac = g.ns_since.div_euclid(NS) == want_i.div_euclid(NS);
+                    rec.violation(format!("C13|read|{}|wrong-instant|{},{}", api, if only_frac { "fraction" } else { "fields" }, frac_bin(st.frac.len())), || wit(json!({"parsed_value_reads": g.to_json(), "independently_built_expected_reads": e.to_json()})));
+                } else if g.off != e.off {
+                    rec.violation(format!("C13|read|{}|wrong-offset", api), || wit(json!({"offset": g.off})));
+                } else {
+                    rec.violation(format!("C13|read|{}|{}", api, g.first_difference(&e)), || wit(json!({"parsed_value_reads": g.to_json(), "independently_built_expected_reads": e.to_json()})));
+                }
             }
-        }
+            Err(p) => rec.violation(format!("C13|read|{}|parsed-value-unreadable|{},{}", api, p.class, p.site()), || wit(p.to_json())),
+        },
     }
     if rec.want_sample() {
         rec.sample(|| wit(json!("(see verdict)")));
@@ -114,7 +126,7 @@ fn judge_reject(rec: &mut Rec, st: &Stamp, what: &'static str) {
     let text = st.text();
     rec.nontrivial(hash_str(&text));
     debug_assert!(!st.fields_valid());
-    let r = trap(|| DateTime::parse_rfc3339(&text).map(|dt| read(&dt)));
+    let r = trap(|| DateTime::parse_rfc3339(&text).map(|dt| trap(|| read(&dt)).unwrap_or(0)));
     let wit = |obs: Value| json!({"text": text, "out_of_range_field": what, "observed": obs});
     match r {
         Err(p) => rec.violation(format!("C13|reject|parse_rfc3339|panic|{},{}", p.class, p.site()), || wit(p.to_json())),
